@@ -595,7 +595,10 @@ func vpGenCase(rng *vrand, id int, mode string) *vpCase {
 		case 8:
 			return 2*cc + 1
 		case 9:
-			return int(defaultSingleBufferSize) + rng.intn(3) - 1
+			if rng.chance(12) {
+				return int(defaultSingleBufferSize) + rng.intn(3) - 1
+			}
+			return cc + 2
 		default:
 			return 1 + rng.intn(2*cc)
 		}
